@@ -6,8 +6,9 @@ use crate::prog::{Cond, Lit, Prog, Stmt, TNAMES};
 pub enum V {
     Nil,
     Bool(bool),
-    Num,
-    Str,
+    Int(u32),
+    Flt(u32),
+    Str(u32),
     Tbl,
 }
 
@@ -16,8 +17,9 @@ impl V {
         match l {
             Lit::Nil => V::Nil,
             Lit::Bool(b) => V::Bool(*b),
-            Lit::Int(_) | Lit::Flt(_) => V::Num,
-            Lit::Str(_) => V::Str,
+            Lit::Int(n) => V::Int(*n),
+            Lit::Flt(k) => V::Flt(*k),
+            Lit::Str(k) => V::Str(*k),
             Lit::Tbl => V::Tbl,
         }
     }
@@ -28,8 +30,8 @@ impl V {
         match self {
             V::Nil => "nil",
             V::Bool(_) => "boolean",
-            V::Num => "number",
-            V::Str => "string",
+            V::Int(_) | V::Flt(_) => "number",
+            V::Str(_) => "string",
             V::Tbl => "table",
         }
     }
@@ -38,8 +40,8 @@ impl V {
             V::Nil => "nil",
             V::Bool(true) => "true",
             V::Bool(false) => "false",
-            V::Num => "number",
-            V::Str => "string",
+            V::Int(_) | V::Flt(_) => "number",
+            V::Str(_) => "string",
             V::Tbl => "table",
         }
     }
@@ -47,10 +49,15 @@ impl V {
 
 struct M {
     env: Vec<V>,
+    init: Vec<V>,
     trace: Vec<(i64, String)>,
     probe_ids: std::collections::HashMap<*const Stmt, i64>,
     steps: usize,
     budget: usize,
+    /// a `Use(x)` was executed while `x` was not a string (the extended program is not "correct code")
+    bad_use: bool,
+    uses: usize,
+    used: Vec<*const Stmt>,
 }
 
 enum Flow {
@@ -59,14 +66,17 @@ enum Flow {
     OutOfBudget,
 }
 
-fn eval(c: &Cond, env: &[V]) -> bool {
+fn eval(c: &Cond, env: &[V], init: &[V]) -> bool {
     match c {
         Cond::Truthy(x) => env[*x].truthy(),
         Cond::TypeIs(x, t, neg, _) => (env[*x].tname() == TNAMES[*t]) != *neg,
         Cond::IsNil(x, neg, _) => (env[*x] == V::Nil) != *neg,
-        Cond::Not(c) => !eval(c, env),
-        Cond::And(a, b) => eval(a, env) && eval(b, env),
-        Cond::Or(a, b) => eval(a, env) || eval(b, env),
+        // a table constructor is never equal to anything (not generated)
+        Cond::EqLit(x, l, neg, _) => (*l != Lit::Tbl && env[*x] == V::of(l)) != *neg,
+        Cond::Stored(x, t, neg) => (init[*x].tname() == TNAMES[*t]) != *neg,
+        Cond::Not(c) => !eval(c, env, init),
+        Cond::And(a, b) => eval(a, env, init) && eval(b, env, init),
+        Cond::Or(a, b) => eval(a, env, init) || eval(b, env, init),
     }
 }
 
@@ -104,11 +114,11 @@ impl M {
                 Flow::Next
             }
             Stmt::If(c, thn, elifs, els) => {
-                if eval(c, &self.env) {
+                if eval(c, &self.env, &self.init) {
                     return self.block(thn);
                 }
                 for (c, b) in elifs {
-                    if eval(c, &self.env) {
+                    if eval(c, &self.env, &self.init) {
                         return self.block(b);
                     }
                 }
@@ -118,7 +128,7 @@ impl M {
                 }
             }
             Stmt::While(c, b) => {
-                while eval(c, &self.env) {
+                while eval(c, &self.env, &self.init) {
                     self.steps += 1;
                     match self.looped(b) {
                         None => return Flow::OutOfBudget,
@@ -153,7 +163,7 @@ impl M {
                         Some(true) => break,
                         Some(false) => {}
                     }
-                    if eval(c, &self.env) {
+                    if eval(c, &self.env, &self.init) {
                         break;
                     }
                     if self.steps > self.budget {
@@ -184,8 +194,18 @@ impl M {
                 }
                 Flow::Next
             }
+            Stmt::Use(x) => {
+                self.uses += 1;
+                if !self.used.contains(&(s as *const Stmt)) {
+                    self.used.push(s as *const Stmt);
+                }
+                if !matches!(self.env[*x], V::Str(_)) {
+                    self.bad_use = true;
+                }
+                Flow::Next
+            }
             Stmt::BreakIf(c) => {
-                if eval(c, &self.env) {
+                if eval(c, &self.env, &self.init) {
                     Flow::Break
                 } else {
                     Flow::Next
@@ -224,10 +244,50 @@ pub fn run(p: &Prog, budget: usize) -> Option<Vec<(i64, String)>> {
     let mut ids = std::collections::HashMap::new();
     let mut next = 0;
     number(&p.body, &mut next, &mut ids);
-    let env = p.decls.iter().map(|d| d.as_ref().map_or(V::Nil, V::of)).collect();
-    let mut m = M { env, trace: Vec::new(), probe_ids: ids, steps: 0, budget };
+    let env: Vec<V> = p.decls.iter().map(|d| d.as_ref().map_or(V::Nil, V::of)).collect();
+    let mut m = M { init: env.clone(), env, trace: Vec::new(), probe_ids: ids, steps: 0, budget, bad_use: false, uses: 0, used: Vec::new() };
     match m.block(&p.body) {
         Flow::OutOfBudget => None,
         _ => Some(m.trace),
+    }
+}
+
+fn use_order(b: &[Stmt], out: &mut Vec<*const Stmt>) {
+    for s in b {
+        match s {
+            Stmt::Use(_) => out.push(s as *const Stmt),
+            Stmt::If(_, t, ei, e) => {
+                use_order(t, out);
+                for (_, x) in ei {
+                    use_order(x, out);
+                }
+                if let Some(x) = e {
+                    use_order(x, out);
+                }
+            }
+            Stmt::While(_, x) | Stmt::WhileTrue(x) | Stmt::Repeat(x, _) | Stmt::ForNum(_, _, x) | Stmt::ForIn(_, x) => {
+                use_order(x, out)
+            }
+            _ => {}
+        }
+    }
+}
+
+/// for a program with `Use` statements: `Some(v)` = terminated and every executed use saw a string;
+/// `v[i]` tells whether the i-th use (document order) was executed
+pub fn uses_ok(p: &Prog, budget: usize) -> Option<Vec<bool>> {
+    let mut ids = std::collections::HashMap::new();
+    let mut next = 0;
+    number(&p.body, &mut next, &mut ids);
+    let env: Vec<V> = p.decls.iter().map(|d| d.as_ref().map_or(V::Nil, V::of)).collect();
+    let mut m = M { init: env.clone(), env, trace: Vec::new(), probe_ids: ids, steps: 0, budget, bad_use: false, uses: 0, used: Vec::new() };
+    match m.block(&p.body) {
+        Flow::OutOfBudget => None,
+        _ if m.bad_use => None,
+        _ => {
+            let mut order = Vec::new();
+            use_order(&p.body, &mut order);
+            Some(order.iter().map(|u| m.used.contains(u)).collect())
+        }
     }
 }
